@@ -104,15 +104,19 @@ def po_new_bar(S):
     _coherent(S, w.market)
 
 
-@proof("C13", "liquidation(update)/views-coherent", strength="S", shapes=_with_prefill(SHAPES_WITH_DEBT), contracts=AAVE_CONTRACTS,
-       config={"max_paths": 6000})
-def po_update(S):
+@proof("C13", "liquidation-step(_do_liquidate)/views-coherent-at-every-exit", strength="S", shapes=_with_prefill(SHAPES_WITH_DEBT), contracts=AAVE_CONTRACTS)
+def po_liquidate_step(S):
+    """_liquidate changes state only through _do_liquidate (and reads views in between), so coherence after every step,
+    accepted or rejected, carries over to update()."""
     w = _enter(S)
+    m = w.market
+    debt_tok = [t for t in m._borrows][0]
+    coll_tok = w.op if w.op in m._supplies else [t for t in m._supplies][0]
     n0 = len(w.actions)
     try:
-        w.market.update()
+        m._do_liquidate(coll_tok, debt_tok, S.dec("debt_value_to_cover", 0, None, lo_strict=True))
     except AssertionError:
-        pass
+        S.cover("rejected")
     if len(w.actions) > n0:
         S.cover("liquidated")
-    _coherent(S, w.market)
+    _coherent(S, m)
